@@ -31,10 +31,11 @@ ASSUMPTIONS = [
 _K = {}
 
 
-def interp():
+def interp(recycle=False):
+    """the shared interpreter; it is only replaced between cases (recycle=True at the start of judge), never inside one"""
     from klongpy import KlongInterpreter
     ent = _K.get('k')
-    if ent is None or ent[1] > 3000:
+    if ent is None or (recycle and ent[1] > 3000):
         k = KlongInterpreter()
         k('nf1::{(x*2)+1}')
         k('nf2::{(2*x)-y}')
@@ -45,6 +46,11 @@ def interp():
         _K['k'] = ent
     ent[1] += 1
     return ent[0]
+
+
+# named verbs and what they are temporarily rebound to: name -> (name, other definition, original definition)
+REBIND = {'nf1': ('nf1', '{x-3}', '{(x*2)+1}'), 'nf2': ('nf2', '{x+y+y}', '{(2*x)-y}'),
+          'py1': ('py1', (lambda x: x * 2 - 1), (lambda x: x * 10 + 1)), 'py2': ('py2', (lambda x, y: x + y * 3), (lambda x, y: x * 10 + y))}
 
 
 class Undef(Exception):
@@ -343,6 +349,7 @@ def text_of(spec):
 
 def judge(stats, report, spec):
     """spec: dict(kind, adverbs, verb forms, operands, text) - computes the expansion and compares."""
+    interp(recycle=True)
     try:
         want = spec['expand']()
     except Undef:
@@ -403,6 +410,38 @@ def judge(stats, report, spec):
     if not agree(want, got[1]):
         cat = 'structure' if not _same_shape(want, got[1]) else 'value'
         report(key + ' | ' + cat, case, expected=_show(want), observed=show(got[1])[:120])
+        return
+    rebound = REBIND.get(spec['verbkind'].split(':', 1)[1])
+    if rebound:
+        # the verb is given by name: after the name is rebound, the same expression text must follow the new definition
+        # (its expansion is evaluated through plain applications of the name, so it follows by construction)
+        name, other, original = rebound
+        try:
+            if callable(other):
+                k[name] = other
+            else:
+                k(name + '::' + other)
+            try:
+                want2 = spec['expand']()
+            except Undef:
+                return
+            try:
+                with core.case_timeout(10):
+                    got2 = ('val', to_canon(k(spec['text'])))
+            except core.CaseTimeout:
+                got2 = ('err', 'Timeout')
+            except Exception as e:
+                got2 = ('err', type(e).__name__)
+            if isinstance(want2, tuple) and want2 and want2[0] == 'multiset':
+                return
+            if got2[0] == 'err' or not agree(want2, got2[1]):
+                report(key + ' | after-rebinding', dict(case, rebound=name), expected=_show(want2),
+                       observed=show(got2[1])[:120] if got2[0] == 'val' else 'raises ' + got2[1])
+        finally:
+            if callable(original):
+                k[name] = original
+            else:
+                k(name + '::' + original)
 
 
 def _show(w):
